@@ -118,6 +118,11 @@ func (g *gctx) foreign(c *Case, w *Wide) {
 		Stored:    one("fstored", 6),
 		EmptyTbl:  one("femptytbl", 6),
 	}
+	// the table without rows stands after the first block: what it is between two lines of one piece of code (nothing, an
+	// empty line, the end of the piece) no statement says - not generated there
+	if len(c.Blocks) > 0 && c.Blocks[0].K == "code" {
+		w.F.EmptyTbl = false
+	}
 	sections := one("fsections", 2)
 	offs := one("foffs", 3)
 	marks := one("fmarks", 3)
